@@ -803,9 +803,11 @@ class ExternalTensor(TensorBase, _protocols.TensorProtocol):  # pylint: disable=
         # model directory so it passes the containment checks above.
         # Uses a single stat call (try/except) to avoid a TOCTOU between
         # os.path.exists() and os.stat().
+        # Only a missing file skips the check: any other failure to stat the file
+        # (permissions, I/O error, ...) propagates so that the check fails closed.
         try:
             nlink = os.stat(path_real).st_nlink
-        except OSError:
+        except FileNotFoundError:
             nlink = 1  # File doesn't exist yet — skip hardlink check
         if nlink > 1:
             raise ValueError(
